@@ -177,6 +177,10 @@ def binop(ip, op, a, b):
         return SV(x * call_spec(ip, p2, [b], {}).e, 'int')
     if op is ast.RShift:
         okb, bv = concrete_of(b)
+        if not okb and not st.merge:
+            uv = st.unique_value(I(b), force=True)
+            if uv is not None:
+                okb, bv = True, uv
         if okb:
             if bv < 0:
                 ip.raise_(ValueError, "negative shift count")
